@@ -45,7 +45,7 @@ def check(ctx, run):
     tp, rpn = post.params[0]["name"], post.params[1]["name"]
     for ig, exp, leaks, before, now, ov in itertools.product((0, 1), (0, 2), (0, 2, 3), (17,), (17, 18), (0, 1)):
         seq = []
-        ev = Evaluator(prog, post, env={"ignoreAllWarnings_": ig, "expectedLeaks_": exp, "failureCount_": before},
+        ev = Evaluator(prog, post, env={"ignoreAllWarnings_": ig, "expectedLeaks_": exp, "failureCount_": before, tp: 100, rpn: 200},
                        calls=hooks(seq, {"totalMemoryLeaks": leaks, "getFailureCount": now, "areNewDeleteOverloaded": ov, "report": ("str", "report")}))
         ev.inline = {g.qn for g in prog.functions.values() if g.qn.startswith(PL + "::")} - set(ev.calls)
         try:
@@ -72,12 +72,13 @@ def check(ctx, run):
             why.append("the failure text is not the checking-period report")
         if kinds.count("markCheckingPeriodLeaksAsNonCheckingPeriod") != 1:
             why.append("the test's leaks are demoted %d times on this exit: they would be charged to the next test" % kinds.count("markCheckingPeriodLeaksAsNonCheckingPeriod"))
+        if decided:
+            built = [t[1] for t in ev.trace if t[0] == "construct TestFailure" and len(t[1]) >= 2]
+            if not built or any(b_[0] != 100 for b_ in built):
+                why.append("the leak failure is not attached to the test that just ran (constructed from %s)" % ([b_[:1] for b_ in built],))
         if ev.env.get("ignoreAllWarnings_") != 0 or ev.env.get("expectedLeaks_") != 0:
             why.append("ignore flag / expected count not reset on this exit")
         run.ob("R1", "postTestAction folded [ignore=%d expected=%d leaks=%d failures %d->%d overloaded=%d]" % (ig, exp, leaks, before, now, ov), post.site, not why, witness={"calls": kinds}, what="; ".join(why))
-    tf = [n for n in post.walk() if n["k"] in ("CXXConstructExpr", "CXXTemporaryObjectExpr") and (n.get("ct") or "").replace("const ", "") == "TestFailure"]
-    okt = bool(tf) and all(post.args(n) and rx(post, post.args(n)[0]) == "&%s" % tp for n in tf if len(post.args(n)) >= 2)
-    run.ob("R1", "the leak failure is attached to the test that just ran", post.site, okt, witness=[rx(post, n) for n in tf])
     for fn_, fld, val in (("ignoreAllLeaksInTest", "ignoreAllWarnings_", 1), ("expectLeaksInTest", "expectedLeaks_", None)):
         f = prog.fn(PL + "::" + fn_)
         ev = Evaluator(prog, f, env=dict({"ignoreAllWarnings_": 0, "expectedLeaks_": 0}, **{q["name"]: 5 for q in f.params}))
